@@ -25,7 +25,12 @@ func (x *Exec) doCall(st *State, c *ssa.CallCommon, pos token.Pos) []Outcome {
 	if x.isNoReturn(c.Value) {
 		return x.noreturnCall(st, fv, args, pos)
 	}
-	if arrs := x.mutatorArrays(c.Value); arrs != nil {
+	if arrs, mname, mpkg := x.mutatorInfo(c.Value); arrs != nil {
+		defer func() {}()
+		outs := x.mutatorCall(st, fv, args, c, pos, arrs, mname, mpkg)
+		return outs
+	}
+	if arrs := x.mutatorArrays(c.Value); false && arrs != nil {
 		// user code that may reconfigure the library's objects through the public API: those arrays are havocked
 		x.trusted["A-cb-init: a CmdInitializer reconfigures commands only through the public API (modelled as an arbitrary change of the declared heap arrays)"] = true
 		for _, n := range arrs {
@@ -37,6 +42,57 @@ func (x *Exec) doCall(st *State, c *ssa.CallCommon, pos token.Pos) []Outcome {
 		}
 	}
 	return x.callVal(st, fv, args, c, pos)
+}
+
+// mutatorCall: user code that may reconfigure the library's objects through the public API. The declared heap arrays are
+// havocked; afterwards the data-structure invariant written as the contract `callback:<Struct.Field>` is assumed.
+func (x *Exec) mutatorCall(st *State, fv Val, args []Val, c *ssa.CallCommon, pos token.Pos, arrs []string, mname, mpkg string) []Outcome {
+	x.trusted["A-cb-init: a CmdInitializer reconfigures commands only through the public API (modelled as an arbitrary change of the declared heap arrays that re-establishes the invariant callback:"+mname+")"] = true
+	for _, n := range arrs {
+		for _, hn := range x.reg.heapOrd {
+			if hn == n || (strings.HasSuffix(n, "*") && strings.HasPrefix(hn, strings.TrimSuffix(n, "*"))) {
+				x.heapHavoc(st, hn, true, st.allocCtr)
+			}
+		}
+	}
+	outs := x.callVal(st, fv, args, c, pos)
+	con := x.cs.Funcs[mpkg+"::callback:"+mname]
+	if con == nil {
+		return outs
+	}
+	for _, o := range outs {
+		if o.panicked || o.exited {
+			continue
+		}
+		pc := x.newSpecCtx(o.st, nil, nil)
+		pc.pkgPath = mpkg
+		for i, n := range con.ParamNames {
+			if i < len(args) {
+				t := x.term(o.st, args[i], pos)
+				if t.T == nil && i < len(c.Args) {
+					t = mkT(t.Sort, t.S, c.Args[i].Type())
+				}
+				pc.vars[n] = t
+			}
+		}
+		for _, e := range con.Ensures {
+			pc.clause = "callback:" + mname + "/" + e.Name
+			o.st.Assume(pc.boolExpr(e.E, false))
+		}
+	}
+	return outs
+}
+
+func (x *Exec) mutatorInfo(v ssa.Value) ([]string, string, string) {
+	arrs := x.mutatorArrays(v)
+	if arrs == nil {
+		return nil, "", ""
+	}
+	u := v.(*ssa.UnOp)
+	a := u.X.(*ssa.FieldAddr)
+	named := a.X.Type().Underlying().(*types.Pointer).Elem().(*types.Named)
+	st := named.Underlying().(*types.Struct)
+	return arrs, named.Obj().Name() + "." + st.Field(a.Field).Name(), named.Obj().Pkg().Path()
 }
 
 func (x *Exec) mutatorArrays(v ssa.Value) []string {
@@ -226,7 +282,17 @@ const (
 	evSet   = 5 // a = ival(value), b = itag(value), s = the string passed to Set
 	evClear = 6
 	evMeth  = 7 // any other logged interface method
+	evMark  = 8 // ghost marker: a logged library function was entered (s = its name, a/b = first arguments)
 )
+
+func (x *Exec) assumedPre(name string) bool {
+	for _, p := range x.curAssumePre {
+		if p == name {
+			return true
+		}
+	}
+	return false
+}
 
 func (x *Exec) emit(st *State, kind int, a, b, s *Term) {
 	x.reg.SeqSort("Ev")
@@ -251,12 +317,34 @@ func (x *Exec) callContract(st *State, fn *ssa.Function, con *Contract, args []V
 	}
 	ctx.evalLets(con)
 	for _, r := range con.Requires {
+		if x.assumedPre(key + "/" + r.Name) {
+			st.Assume(ctx.boolExpr(r.E, false))
+			x.trusted["assumed at call sites in "+x.curFn+": precondition "+key+"/"+r.Name+" (A-heapwf)"] = true
+			continue
+		}
 		g := ctx.boolExpr(r.E, true)
 		n := len(x.obls)
 		x.obligeSrc(st, "pre", key+"/"+r.Name, g, pos, r.Src)
 		if len(x.obls) > n {
 			x.obls[len(x.obls)-1].Callee = key
 		}
+	}
+	var markPos *Term
+	if con.Logged {
+		// marker event: this function was called (a = first argument, b = second argument when it is an int or bool)
+		markPos = App("Int", "len_Ev", st.trace)
+		a, b := IntLit(0), IntLit(0)
+		if len(argT) > 0 && argT[0].Sort == "Int" {
+			a = argT[0]
+		}
+		if len(argT) > 1 {
+			if argT[1].Sort == "Int" {
+				b = argT[1]
+			} else if argT[1].Sort == "Bool" {
+				b = Ite(argT[1], IntLit(1), IntLit(0))
+			}
+		}
+		x.emit(st, evMark, a, b, x.reg.StrLit(fn.Name()))
 	}
 	// recursion measure: callee's measure at the call must be lexicographically below the caller's measure at its entry
 	if len(con.Decr) > 0 && len(x.curDecr) > 0 {
@@ -338,6 +426,16 @@ func (x *Exec) callContract(st *State, fn *ssa.Function, con *Contract, args []V
 		rvals = append(rvals, r)
 	}
 	mkPost(st, con.Ensures, results, nil)
+	if con.Logged && markPos != nil {
+		// ... and so is the length of the trace when it returns
+		x.reg.DeclFunc("callEnd", []string{"Str", "Int"}, "Int")
+		st.Assume(Eq(App("Int", "len_Ev", st.trace), App("Int", "callEnd", x.reg.StrLit(fn.Name()), markPos)))
+	}
+	if con.Logged && len(results) == 1 && results[0].Sort == "Iface" && markPos != nil {
+		// the verdict of a logged function that yields an error is named by the position of its entry marker
+		x.reg.DeclFunc("callOK", []string{"Str", "Int"}, "Bool")
+		st.Assume(Eq(Eq(results[0], mk("Iface", "inil")), App("Bool", "callOK", x.reg.StrLit(fn.Name()), markPos)))
+	}
 	outs = append(outs, Outcome{st: st, results: rvals})
 	if stP != nil {
 		pv := stP.Fresh("panicval", "Iface")
@@ -466,9 +564,8 @@ func (x *Exec) callContractSig(st *State, con *Contract, ms *methodStub, recv *T
 	}
 	for n, full := range eff {
 		if n == "$trace" {
-			if !con.Logged {
-				x.havocTrace(st)
-			}
+			// user implementations cannot emit library events: the trace only gains this call's own logged event (A-cb)
+			x.trusted["A-cb: a protocol method of a user value does not call back into the library (its only trace effect is its own logged event)"] = true
 		} else if n == "$slice" {
 			x.unsupported(st, pos, "implementation of %s writes slice elements in place", key)
 		} else {
